@@ -6,7 +6,7 @@ P = {
          'Bycycle.fit under every option set with <= 1 (quick) / <= 2 (thorough) deviations from the default plus the full '
          'option product on W(4,5); every returned table is checked for the ordering / tiling / alternation / boundary '
          'invariants and for genuine extremum kinds against the C02 reference. Preconditions come from the reference model, '
-         'so a raise inside the precondition is a violation. One set of option objects is reused for every call of a case (second fit, second call); inputs also come as strided views, integer dtype, riding on steep drifts and in lengths 36..60 incl. primes. Scale axis: four long real-valued recordings (up to 70000 samples / 1430 cycles, fs 500..2000 incl. 1017.25) x centring x method, and 5-letter words cut down to one- and two-row tables.',
+         'so a raise inside the precondition is a violation. One set of option objects is reused for every call of a case (second fit, second call); inputs also come as strided views, integer dtype, riding on steep drifts and in lengths 36..60 incl. primes. Scale axis: four long real-valued recordings (up to 70000 samples / 1430 cycles, fs 500..2000 incl. 1017.25) x centring x method, and 5-letter words cut down to one- and two-row tables. Also constant stretches at a non-zero level and the amplitude method with a minimum burst duration.',
     note='signals = words over integer waveform letters x global transforms (6 decades of scale, DC, negation); neurodsp filter trusted',
     technique='bounded-exhaustive enumeration of words x option deviations (deviation-bounded) on the real pipeline'),
  'C02': dict(
@@ -33,40 +33,40 @@ P = {
     text='Each burst-feature function is driven with every small table over value alphabets containing ties, zeros, '
          'negatives and NaN (amp consistency: all (rise, decay) tables up to 3/4 cycles x 3 directions x 2 centrings; '
          'period consistency, amp fraction, monotonicity on all small signals x all cyclepoint triples) and compared '
-         'with a temporal-flank-sequence reference; pipeline tables of all words are checked too. Scale axis: long recordings (tables of 660 / 1430 rows) and tables of up to 6007 (20011) distinct amplitudes spaced 2**-30..2**-45 apart.',
+         'with a temporal-flank-sequence reference; pipeline tables of all words are checked too. Scale axis: long recordings (tables of 660 / 1430 rows) and tables of up to 6007 (20011) distinct amplitudes spaced 2**-30..2**-45 apart. The consistency columns are also checked after recompute_edges (edge oracle of C16) and without sample columns.',
     note='float compare rtol 1e-9; [0,1] range checked only where the flank voltages are positive',
     technique=T),
  'C06': dict(
     text='detect_bursts_cycles is run on every synthetic table of <= 4 / 5 cycles over 13 threshold-relative profiles '
          '(values exactly on, just below, NaN) x min_n_cycles x 2 threshold vectors, on the complete {below,at,above,NaN}^4 '
          'relation product, and on the pipeline tables of all words over the complete threshold REGION grid (every order '
-         'relation between threshold and column values) with monotone-chain checks; all against a threshold-and-run reference. min_n_cycles 0..4 and each threshold at 0 / 1 are also routed through compute_features; tables handed in are already labelled. Scale axis: synthetic tables with up to 1025 (4096) runs of qualifying cycles and volt_amp over ten decades, words with giant cycles; per-epoch option lists of compute_features_2d(axis=None).',
+         'relation between threshold and column values) with monotone-chain checks; all against a threshold-and-run reference. min_n_cycles 0..4 and each threshold at 0 / 1 are also routed through compute_features; tables handed in are already labelled. Scale axis: synthetic tables with up to 1025 (4096) runs of qualifying cycles and volt_amp over ten decades, words with giant cycles; per-epoch option lists of compute_features_2d(axis=None). Thresholds through the objects (short names, partial dictionaries) and per-signal threshold lists of compute_features_3d are routed to the same rule.',
     note='region abstraction makes "all thresholds in [0,1]" finite; one (quick) or two (thorough) thresholds leave the default at a time',
     technique=T),
  'C07': dict(
     text='For every word x centring x amp_threshes x the 16 routes of min_n_cycles (thresholds / burst options / both / neither) '
          'x min_burst_duration, burst_fraction is recomputed as the inclusive-window mean of the neurodsp dual-threshold mask '
          'called with the one effective minimum, and labels as the run filter with the same minimum over the full region '
-         'grid of burst_fraction_threshold. Includes min_burst_duration 0, minimum 0, and one pre-allocated array analysed twice with different content. Scale axis: burst_fraction columns with up to 1025 (4096) runs, long recordings; also row subsets of a table and extrema filter settings that must not reach the detector.',
+         'grid of burst_fraction_threshold. Includes min_burst_duration 0, minimum 0, and one pre-allocated array analysed twice with different content. Scale axis: burst_fraction columns with up to 1025 (4096) runs, long recordings; also row subsets of a table and extrema filter settings that must not reach the detector. Per-epoch option lists with the amplitude method (entries without thresholds take the defaults).',
     note='neurodsp detect_bursts_dual_threshold trusted as the sample-wise detector',
     technique=T),
  'C08': dict(
     text='Every boolean array of length <= 12 (quick) / 16 (thorough) x every min_n_cycles is run through the real '
          'check_min_burst_cycles and compared with a run-length reference, plus idempotence and mirror symmetry; '
          'the space is the complete binary prefix tree, so the coverage statement is "no array up to the bound '
-         'violates the rule". Scale axis: run COUNTS 96..139, 250..263, 508..517, 1020..1029 (more in thorough) x 5 run-length patterns x 4 endings x thresholds 2..5.',
+         'violates the rule". Scale axis: run COUNTS 96..139, 250..263, 508..517, 1020..1029 (more in thorough) x 5 run-length patterns x 4 endings x thresholds 2..5. The filter is also exercised through its public callers (detect_bursts_cycles / _amp on every pattern of <= 9 cycles, compute_features with the amplitude method).',
     note='numpy bool arrays, fresh copy per call; min_n_cycles in 0..len+1 plus two non-integers',
     technique='explicit-state enumeration of the binary prefix tree on the real function vs reference model'),
  'C09': dict(
     text='Differential, exact: for every word x option set compute_features(x, trough) is compared with '
          'compute_features(-x, peak) mapped through a hand-written column map; integer columns, labels and floats must be '
-         'identical (negation commutes exactly with IEEE arithmetic). The mirror is checked again after recompute_edges (7-letter words) and for integer / int16-near-full-scale / drifting inputs. Also every 7 (9) samples over {-1,0,1} embedded between regular cycles (ties between extrema voltages), the epoch tables of compute_features_2d(axis=None), and four long recordings.',
+         'identical (negation commutes exactly with IEEE arithmetic). The mirror is checked again after recompute_edges (7-letter words) and for integer / int16-near-full-scale / drifting inputs. Also every 7 (9) samples over {-1,0,1} embedded between regular cycles (ties between extrema voltages), the epoch tables of compute_features_2d(axis=None), and four long recordings. Also per-signal option lists of compute_features_2d and sample-free objects that were loaded before being fitted.',
     note='implementation vs implementation under an exactly commuting transformation; both burst methods',
     technique='bounded-exhaustive metamorphic enumeration on the real code'),
  'C10': dict(
     text='Differential, exact: every word x option set is re-analysed with the signal scaled by 2^k (k in -10,-3,1,10) and '
          'with (fs, f_range) multiplied by 1/2, 2, 4 (filter length in cycles); index / ratio columns and labels must be '
-         'identical and voltage columns scaled exactly. One option object is reused across the re-scaled and re-rated calls; scales 2^-50..2^40; every {-1,0,1}^9 (quick) / ^12 (thorough) signal at cyclepoint level under a 9-tap filter (filter-length sensitive). Rate factors up to 128 (fs = 8192 Hz), a band 0.5 Hz wide at fs = 16 Hz, band variants, and long recordings at fs 1000 / 500 / 1017.25.',
+         'identical and voltage columns scaled exactly. One option object is reused across the re-scaled and re-rated calls; scales 2^-50..2^40; every {-1,0,1}^9 (quick) / ^12 (thorough) signal at cyclepoint level under a 9-tap filter (filter-length sensitive). Rate factors up to 128 (fs = 8192 Hz), a band 0.5 Hz wide at fs = 16 Hz, band variants, and long recordings at fs 1000 / 500 / 1017.25. Also re-used burst options that carry a stale fs / f_range, and covariance after an analysis of the same band at an 8 x lower rate (50 start offsets).',
     note='powers of two only, so floating point commutes exactly and equality cannot flake',
     technique='bounded-exhaustive metamorphic enumeration on the real code'),
  'C11': dict(
@@ -85,40 +85,40 @@ P = {
  'C13': dict(
     text='epoch_df is run on every synthetic cyclepoint table (T=12/14, both centrings) x every epoch length, and '
          'compute_features_2d(axis=None) on every word reshaped into epochs of 4..24 samples x option kinds; rows must '
-         'partition the flattened analysis exactly once, in order, shifted by the epoch start, with labels per the rule. Option kinds: none / dict / per-epoch list / one dict object repeated / list with entries that omit thresholds; C- and Fortran-ordered arrays; 80-sample words in 40-sample epochs so that per-epoch labels can differ. Scale axis: epoch_df on synthetic tables of 1100 (2100) cycles with closing extrema on the borders; words declared at fs 49 / 173.61 / 1017.25 / 9.8 / 250 Hz x every epoch length (sample-count <-> seconds round trips). Border cases follow the anchored half-open (first, last] rule.',
+         'partition the flattened analysis exactly once, in order, shifted by the epoch start, with labels per the rule. Option kinds: none / dict / per-epoch list / one dict object repeated / list with entries that omit thresholds; C- and Fortran-ordered arrays; 80-sample words in 40-sample epochs so that per-epoch labels can differ. Scale axis: epoch_df on synthetic tables of 1100 (2100) cycles with closing extrema on the borders; words declared at fs 49 / 173.61 / 1017.25 / 9.8 / 250 Hz x every epoch length (sample-count <-> seconds round trips). Border cases follow the anchored half-open (first, last] rule. Lists whose last entry differs in options that shape the flattened analysis, sparse lists for both methods, positive amp_fraction thresholds.',
     note='closing extremum exactly on an epoch boundary may sit in either adjacent epoch',
     technique=T),
  'C14': dict(
     text='Explicit-state BFS over operation histories (fit on two signals, recompute_edges, threshold and burst-option '
          'edits, load) on a live Bycycle object, depth 3 / 5, from 16+ initial configurations; after every fit the table '
          'must equal compute_features with the settings ledger and a fresh object; BycycleGroup.models mirror is checked '
-         'over shapes x axes. Operations include an in-place edit of a nested find_extrema_kwargs setting (with a check that freshly constructed objects still carry the documented defaults) and attribute access after every table-replacing operation. Also objects built with return_samples=False (interaction with recompute_edges).',
+         'over shapes x axes. Operations include an in-place edit of a nested find_extrema_kwargs setting (with a check that freshly constructed objects still carry the documented defaults) and attribute access after every table-replacing operation. Also objects built with return_samples=False (interaction with recompute_edges). Partial threshold dictionaries as initial configurations.',
     note='state = settings ledger + live attribute dicts + table hash; histories replayed on fresh objects',
     technique='explicit-state BFS over operation histories with canonical state hashing on the real objects'),
  'C15': dict(
     text='Fixpoint closure: ~35 API calls sharing one set of argument objects are applied from the pristine state; a pure '
          'implementation maps the pristine fingerprint to itself, so the reachable state space is one state and the '
          'statement holds for histories of every length; all ordered pairs (quick) / triples (thorough) over a core are '
-         'executed and compared with fresh-state results. The alphabet includes default-argument calls, a burst-free table, and a caller-owned buffer overwritten in place between calls. The shared argument set is built once in a separate process, so every history starts from import-time module state; the alphabet includes equal-valued twin calls (distinct string / dict objects), near-identical long inputs, fractional bands / rates, tables from gated signals, and numpy\'s small-block cache is poisoned with a step-dependent value before every call (uninitialised reads become history-dependent).',
+         'executed and compared with fresh-state results. The alphabet includes default-argument calls, a burst-free table, and a caller-owned buffer overwritten in place between calls. The shared argument set is built once in a separate process, so every history starts from import-time module state; the alphabet includes equal-valued twin calls (distinct string / dict objects), near-identical long inputs, fractional bands / rates, tables from gated signals, and numpy\'s small-block cache is poisoned with a step-dependent value before every call (uninitialised reads become history-dependent). A re-used analysis object (fit, recompute_edges, fit) and a rename-chain twin (table rebuilt from plain values) are part of the alphabet.',
     note='fingerprint covers arrays, dicts, tables, pandas chained-assignment option, open figures',
     technique='explicit-state closure (BFS to fixpoint) over API calls on shared argument objects'),
  'C16': dict(
     text='recompute_edges is run on every synthetic burst layout of <= 5 / 6 cycles (5 cycle kinds, 2 monotonicities) x '
          'threshold menu x reductions x both centrings, and on pipeline tables of bursty words; edge values must equal the '
          'one-sided reference, everything else (and the input table) must be unchanged, labels must follow the rule on the '
-         'edited table. Burst-free tables are included (no edges: only re-labelling, input untouched, result a new object). Scale axis: synthetic tables with 127..272 (530) bursts, long recordings with reductions .1 and .005 through function and object; sample-free tables (known finding for peak centring).',
+         'edited table. Burst-free tables are included (no edges: only re-labelling, input untouched, result a new object). Scale axis: synthetic tables with 127..272 (530) bursts, long recordings with reductions .1 and .005 through function and object; sample-free tables (known finding for peak centring). Layouts with negative (reversed) flank voltages.',
     note='a cycle that is both an end and a start edge may carry either one-sided value',
     technique=T),
  'C17': dict(
     text='extrema_interpolated_phase is run on every alternating extremum placement (gaps >= 2) on arrays of length <= 10 / 13 '
          'with every midpoint placement (coincidences included) and on the cyclepoints of all words x boundary x '
-         'first_extrema; anchors, range, NaN span and monotonicity are checked on every sample. Midpoint arguments also one-sided (only rises / only decays) and before the first / after the last extremum. Scale axis: cyclepoints exactly L samples apart for every L = 2..400 (1200), and a 66000-sample recording with a cyclepoint every 25 samples in all 100 alignments.',
+         'first_extrema; anchors, range, NaN span and monotonicity are checked on every sample. Midpoint arguments also one-sided (only rises / only decays) and before the first / after the last extremum. Scale axis: cyclepoints exactly L samples apart for every L = 2..400 (1200), and a 66000-sample recording with a cyclepoint every 25 samples in all 100 alignments. The signal argument carries NaN / inf values (only its length may matter); words riding on steep slopes.',
     note='tolerance 1e-12 on anchor values',
     technique=T),
  'C18': dict(
     text='limit_df on every synthetic cyclepoint table (T=9/12) x both centrings x every (start, stop) pair on the half-sample '
          'grid incl. None x reset_indices x fs; limit_signal on every time axis <= 8 samples; split/drop on pipeline tables; '
-         'flatten_dfs on every 1-D and 2-D list shape - all against selection references. Time axes include negative times. Also time stamps of 100..86400 s at 1 / 30 kHz, labels shared by several tables, limits on the half-sample grid.',
+         'flatten_dfs on every 1-D and 2-D list shape - all against selection references. Time axes include negative times. Also time stamps of 100..86400 s at 1 / 30 kHz, labels shared by several tables, limits on the half-sample grid. Time axes with NaN stamps.',
     note='whether partially overlapping cycles are kept is left open (docstring and code disagree)',
     technique=T),
  'C19': dict(
@@ -132,7 +132,7 @@ P = {
     text='Plots are drawn (Agg) for tables of bursty words x centrings x fs x every x-limit pair on a sample grid x plot '
          'switches; Line2D data is read back: every marker must be a genuine cyclepoint of its kind at (s/fs, signal[s]), '
          'every cyclepoint strictly inside the view present, the burst highlight within / covering is_burst cycles, '
-         'parameter panels at cycle centres with the threshold line. Scale axis: a 140000-sample recording at fs = 1000 (full view and windows at 10 / 110 / 119 s).',
+         'parameter panels at cycle centres with the threshold line. Scale axis: a 140000-sample recording at fs = 1000 (full view and windows at 10 / 110 / 119 s). A saw-tooth word with one-sample flanks; quick windows starting at samples 29 / 57 / 58 (float residue of start * fs).',
     note='artist data, not pixels',
     technique=T),
 }
